@@ -617,7 +617,7 @@ func runC16(cfg Config, r *Result) {
 	} else {
 		r.Violate(Violation{Kind: "correspondence", Key: "model-start", Detail: err.Error()})
 	}
-	r.Rule = "generated evy programs (same generator as C17: declarations, assignment, arithmetic, strings, arrays, maps, index, slice, if/else-if/else, while, break, for over ranges/arrays/strings/maps, nested). For each: the set of AST nodes Compile has no translation for is read off the parsed tree; if non-empty, Compile must return an error (else: unsupported-silently-dropped). Otherwise the program is run on the real evaluator (recording platform, yield budget) and compiled and run on the real VM (recover, time limit): run-time errors must correspond by sentinel (division/modulo by zero may be a VM-only error), and every evaluator global (by name; numbers as IEEE bit patterns, strings exactly, arrays/maps structurally) must have the same value on the VM (Compiler.VerifGlobalSymbols + VM.VerifGlobalRepr). The main stream avoids the recorded VM divergence classes; a second stream enables exactly one class per program (keys vm-<class>). In addition the Compile.v model is compared with the real compiler byte for byte and constant for constant on the AST exported from Go. A further stream (sem-tie) runs exec_l, the big-step semantics compile_correct_ctl_partial is stated against (coq/CompileSem.v, extracted), on generated programs of the fragment psfrag next to the real evaluator and the evaluator model coq/Sem.v: defined implies the evaluator finishes with the same declared globals, undefined (ample fuel) implies a run-time error. non-trivial = the emitted code contains a jump or range instruction (or: the program is outside the subset); distinct = distinct program text"
+	r.Rule = "generated evy programs (same generator as C17: declarations, assignment, arithmetic, strings, arrays, maps, index, slice, if/else-if/else, while, break, for over ranges/arrays/strings/maps, nested). For each: the set of AST nodes Compile has no translation for is read off the parsed tree; if non-empty, Compile must return an error (else: unsupported-silently-dropped). Otherwise the program is run on the real evaluator (recording platform, yield budget) and compiled and run on the real VM (recover, time limit): run-time errors must correspond by sentinel (division/modulo by zero may be a VM-only error), and every evaluator global (by name; numbers as IEEE bit patterns, strings exactly, arrays/maps structurally) must have the same value on the VM (Compiler.VerifGlobalSymbols + VM.VerifGlobalRepr). The main stream avoids the recorded VM divergence classes; a second stream enables exactly one class per program (keys vm-<class>). In addition the Compile.v model is compared with the real compiler byte for byte and constant for constant on the AST exported from Go. A further stream (sem-tie) runs exec_l, the big-step semantics compile_correct_ctl_partial is stated against (coq/CompileSem.v, extracted), on generated programs of the fragment psfrag next to the real evaluator and the evaluator model coq/Sem.v: defined implies the evaluator finishes with the same declared globals, undefined (ample fuel) implies a run-time error. The same for lx_l, the semantics with block scopes compile_correct_locals_partial is stated against, on generated programs of lpfrag (declarations, shadowing declarations and loop variables inside blocks): stream sem-tie-locals. Stream shape: the side conditions of the whole-program theorems (wplain_slist, nb_slist: called parser-guaranteed in C17_compile_wf_all / C16_compile_correct_plain_partial) are evaluated by the extracted model on the exported AST of every corpus and generated program the real parser accepts and must hold; for programs the real compiler accepts, plain_slist must be exactly `no element store in the Go AST` and plain must imply lfrag_slist. non-trivial = the emitted code contains a jump or range instruction (or: the program is outside the subset); distinct = distinct program text"
 	if cfg.Replay != "" {
 		b, err := os.ReadFile(cfg.Replay)
 		if err == nil {
@@ -627,11 +627,18 @@ func runC16(cfg Config, r *Result) {
 			}
 			if json.Unmarshal(b, &rep) == nil {
 				if src, ok := rep.Input["program"].(string); ok {
-					if st, _ := rep.Input["stream"].(string); st == "sem-tie" {
+					if st, _ := rep.Input["stream"].(string); st == "shape" {
+						if em, e1 := StartModelBig("semexec"); e1 == nil {
+							c16Shape(src, r, em)
+							em.Close()
+						}
+						return
+					}
+					if st, _ := rep.Input["stream"].(string); st == "sem-tie" || st == "sem-tie-locals" {
 						em, e1 := StartModelBig("semexec")
 						sm := startSem(r)
 						if e1 == nil && sm != nil {
-							c16SemTie(src, r, em, sm)
+							c16SemTie(st, src, r, em, sm)
 							em.Close()
 							sm.Close()
 						}
@@ -686,9 +693,26 @@ func runC16(cfg Config, r *Result) {
 	} else {
 		if sm := startSem(r); sm != nil {
 			for i, n := 0, cfg.N(250, 6000); i < n; i++ {
-				c16SemTie(genFragProgram(cfg.Rng, cfg.Rng.Intn(5) == 0), r, em, sm)
+				c16SemTie("sem-tie", genFragProgram(cfg.Rng, cfg.Rng.Intn(5) == 0, false), r, em, sm)
+			}
+			// … and lx_l, the semantics with block scopes of compile_correct_locals_partial, on lpfrag
+			for i, n := 0, cfg.N(250, 6000); i < n; i++ {
+				c16SemTie("sem-tie-locals", genFragProgram(cfg.Rng, cfg.Rng.Intn(5) == 0, true), r, em, sm)
 			}
 			sm.Close()
+		}
+		// the side conditions of the whole-program theorems on everything the real parser accepts
+		for _, src := range c17Corpus {
+			c16Shape(src, r, em)
+		}
+		for _, src := range c16Corpus {
+			c16Shape(src, r, em)
+		}
+		for i, n := 0, cfg.N(300, 8000); i < n; i++ {
+			o := genOpts{MaxStmts: 3 + cfg.Rng.Intn(10), MaxDepth: 1 + cfg.Rng.Intn(4), ExprDepth: 1 + cfg.Rng.Intn(3),
+				Unsupported: i%4 == 0, Classes: map[string]bool{"map-insert": i%3 == 0, "frac-index-write": i%5 == 0}}
+			src, _ := genProgram(cfg.Rng, o)
+			c16Shape(src, r, em)
 		}
 		em.Close()
 	}
